@@ -280,7 +280,9 @@ Process(ev, i) ==
 
 RunEnd ==
      V(R.status # "raised", "NeverRaises")
-  \cup V(~(R.role = "resumed" /\ R.status = "raised"), "ResumeFromFileWorks")
+  \* (when the uninterrupted run itself ends in an exception - e.g. whitening of a collapsed population -
+  \*  its continuation may do the same: only a continuation of a run that completes must complete)
+  \cup V(~(R.role = "resumed" /\ R.status = "raised" /\ gaux.hasRef), "ResumeFromFileWorks")
   \cup V(R.status # "ok" \/ aux.gotFinal, "conf_no_final")
   \cup V(Cfg.rng_route = "none" \/ R.orng_created = 0, "UserRngUsed")
 
